@@ -700,21 +700,24 @@ Proof.
   inversion H as [|? ? Hin _]; subst. apply Hin. left. reflexivity.
 Qed.
 
-(* who may hold the mutex *)
-Definition fcaller_inv (st : fstate) (i : N) : Prop :=
+(* who may hold the mutex, and what the holder knows *)
+Definition fcaller_inv (v0 : N) (st : fstate) (i : N) : Prop :=
   match fget (f_callers st) i with
+  | FCreating => f_lock st = Some i /\ v0 = 0 /\ f_rets st = []
   | FChecked => f_lock st = Some i
-  | FHasRead n => f_lock st = Some i /\ n = fcur (f_file st) + 1 /\ n < two32
+  | FHasRead n => f_lock st = Some i /\ fval (f_file st) = Some (n - 1) /\ 1 <= n /\ n < two32
+  | FTrunc n => f_lock st = Some i /\ n < two32 /\ v0 < n /\
+                Forall (fun m => m < n) (map snd (f_rets st))
   | _ => f_lock st <> Some i
   end.
 
 Record finv (v0 : N) (st : fstate) : Prop := mkFinv {
-  fi_v0 : v0 <= fcur (f_file st);
-  fi_le : Forall (fun n => n <= fcur (f_file st)) (map snd (f_rets st));
+  (* whenever the file reads as a number (absent: 0), it is not below anything handed out *)
+  fi_val : forall v, fval (f_file st) = Some v ->
+           v0 <= v /\ Forall (fun n => n <= v) (map snd (f_rets st));
   fi_gt0 : Forall (fun n => v0 < n) (map snd (f_rets st));
   fi_sorted : StronglySorted N.gt (map snd (f_rets st));
-  fi_count : fcur (f_file st) = v0 + N.of_nat (length (f_rets st));
-  fi_callers : forall i, fcaller_inv st i
+  fi_callers : forall i, fcaller_inv v0 st i
 }.
 
 Lemma fget_cons_other cs i j c : j <> i -> fget ((i, c) :: cs) j = fget cs j.
@@ -723,129 +726,182 @@ Proof. intro H. unfold fget. cbn. apply N.eqb_neq in H. rewrite H. reflexivity. 
 Lemma fget_cons_same cs i c : fget ((i, c) :: cs) i = c.
 Proof. unfold fget. cbn. rewrite N.eqb_refl. reflexivity. Qed.
 
-(* while caller i holds the mutex, or nobody does, every other caller is outside *)
-Lemma fcaller_other st st' i :
+Lemma fget_kill cs j :
+  fget (map (fun jc => (fst jc, fkill (snd jc))) cs) j = fkill (fget cs j).
+Proof.
+  unfold fget. induction cs as [|[k c] cs IH]; cbn; [reflexivity|].
+  destruct (j =? k); [reflexivity|exact IH].
+Qed.
+
+(* while caller i holds the mutex, or nobody does, every other caller is outside; what it is
+   required to know mentions the mutex only *)
+Lemma fcaller_other v0 st st' i :
   (forall j, j <> i -> fget (f_callers st') j = fget (f_callers st) j) ->
   (f_lock st = Some i \/ f_lock st = None) ->
   (f_lock st' = Some i \/ f_lock st' = None) ->
-  forall j, j <> i -> fcaller_inv st j -> fcaller_inv st' j.
+  forall j, j <> i -> fcaller_inv v0 st j -> fcaller_inv v0 st' j.
 Proof.
   intros Hsame Hl Hl' j Hne Cj. unfold fcaller_inv in *. rewrite (Hsame j Hne).
-  destruct (fget (f_callers st) j) as [| |m|r].
+  destruct (fget (f_callers st) j) as [| | |m|m|r].
   - destruct Hl' as [Hl'|Hl']; rewrite Hl'; congruence.
+  - exfalso. destruct Cj as [Cj _]. destruct Hl as [Hl|Hl]; rewrite Hl in Cj; congruence.
   - exfalso. destruct Hl as [Hl|Hl]; rewrite Hl in Cj; congruence.
+  - exfalso. destruct Cj as [Cj _]. destruct Hl as [Hl|Hl]; rewrite Hl in Cj; congruence.
   - exfalso. destruct Cj as [Cj _]. destruct Hl as [Hl|Hl]; rewrite Hl in Cj; congruence.
   - destruct Hl' as [Hl'|Hl']; rewrite Hl'; congruence.
 Qed.
 
-Lemma finv_same_file v0 st fl lk cs :
-  finv v0 st -> fcur fl = fcur (f_file st) ->
-  (forall i, fcaller_inv (mkF fl lk cs (f_rets st)) i) ->
-  finv v0 (mkF fl lk cs (f_rets st)).
-Proof.
-  intros [V Le G0 S Cn C] Hf Hc.
-  constructor; cbn [f_file f_lock f_callers f_rets]; rewrite ?Hf; assumption.
-Qed.
+Ltac others st i :=
+  apply (fcaller_other _ st _ i); auto;
+  intros ?k ?Hk; cbn [f_callers]; apply fget_cons_other; assumption.
 
 Lemma fstep_inv v0 st i : finv v0 st -> finv v0 (fstep st i).
 Proof.
-  intros Hinv. pose proof Hinv as [V Le G0 S Cn C].
+  intros Hinv. pose proof Hinv as [V G0 S C].
   unfold fstep. pose proof (C i) as Ci. unfold fcaller_inv in Ci.
-  destruct (fget (f_callers st) i) as [| |n|r] eqn:G; [| | |exact Hinv].
+  destruct (fget (f_callers st) i) as [| | |n|n|r] eqn:G; [| | | | |exact Hinv].
   - (* FIdle: takes the mutex if it is free *)
     destruct (f_lock st) as [h|] eqn:L; [exact Hinv|].
-    apply finv_same_file; [exact Hinv|destruct (f_file st); reflexivity|].
-    intro j. destruct (N.eq_dec j i) as [->|Hne].
-    + unfold fcaller_inv. cbn [f_callers f_lock]. rewrite fget_cons_same. reflexivity.
-    + apply (fcaller_other st _ i); auto.
-      intros k Hk. cbn [f_callers]. apply fget_cons_other. exact Hk.
+    destruct (f_file st) as [b|] eqn:F.
+    + constructor; cbn [f_file f_lock f_callers f_rets]; try assumption.
+      intro j. destruct (N.eq_dec j i) as [->|Hne].
+      * unfold fcaller_inv. cbn [f_callers f_lock]. rewrite fget_cons_same. reflexivity.
+      * others st i.
+    + (* absent: created, empty *)
+      destruct (V 0 eq_refl) as [V0 Vle].
+      assert (Hnil : f_rets st = []).
+      { destruct (f_rets st) as [|[k m] rs]; [reflexivity|exfalso].
+        cbn in Vle, G0. inversion Vle; subst. inversion G0; subst. lia. }
+      constructor; cbn [f_file f_lock f_callers f_rets]; try assumption.
+      * intros v Hv. discriminate Hv.
+      * intro j. destruct (N.eq_dec j i) as [->|Hne].
+        -- unfold fcaller_inv. cbn [f_callers f_lock f_rets]. rewrite fget_cons_same.
+           repeat split; [lia|exact Hnil].
+        -- others st i.
+  - (* FCreating: writes "0" *)
+    destruct Ci as (Hl & Hv0 & Hnil).
+    constructor; cbn [f_file f_lock f_callers f_rets]; try assumption.
+    + intros v Hv. cbn in Hv. inversion Hv; subst. rewrite Hnil. split; [lia|constructor].
+    + intro j. destruct (N.eq_dec j i) as [->|Hne].
+      * unfold fcaller_inv. cbn [f_callers f_lock]. rewrite fget_cons_same. exact Hl.
+      * others st i.
   - (* FChecked: reads; a failure releases the mutex *)
     assert (Hfail : finv v0 (mkF (f_file st) None ((i, FDone None) :: f_callers st) (f_rets st))).
-    { apply finv_same_file; [exact Hinv|reflexivity|].
+    { constructor; cbn [f_file f_lock f_callers f_rets]; try assumption.
       intro j. destruct (N.eq_dec j i) as [->|Hne].
       - unfold fcaller_inv. cbn [f_callers f_lock]. rewrite fget_cons_same. discriminate.
-      - apply (fcaller_other st _ i); auto.
-        intros k Hk. cbn [f_callers]. apply fget_cons_other. exact Hk. }
+      - others st i. }
     destruct (f_file st) as [b|] eqn:F; [|exact Hfail].
     destruct (parse_u32 b) as [v|] eqn:P; [|exact Hfail].
     destruct (next32 v) as [n|] eqn:Nx; [|exact Hfail].
     destruct (next32_some v n (parse_lt _ _ P) Nx) as [Hm ->].
-    rewrite <- F. apply finv_same_file; [exact Hinv|reflexivity|].
+    constructor; cbn [f_file f_lock f_callers f_rets]; try assumption.
     intro j. destruct (N.eq_dec j i) as [->|Hne].
     + unfold fcaller_inv. cbn [f_callers f_lock f_file]. rewrite fget_cons_same.
-      split; [exact Ci|]. rewrite F. unfold fcur. rewrite P.
-      unfold max_u32, two32 in *. split; lia.
-    + apply (fcaller_other st _ i); auto.
-      intros k Hk. cbn [f_callers]. apply fget_cons_other. exact Hk.
-  - (* FHasRead: writes the number and releases the mutex *)
-    destruct Ci as (Hl & Hn & Hlt).
-    assert (Hc : fcur (Some (fmt_u n)) = n) by (unfold fcur; rewrite (parse_fmt n Hlt); reflexivity).
-    constructor; cbn [f_file f_lock f_callers f_rets map snd length]; rewrite ?Hc.
-    + lia.
-    + constructor; [lia|]. eapply Forall_le_trans; [|exact Le]. lia.
-    + constructor; [lia|exact G0].
-    + constructor; [exact S|]. eapply Forall_impl; [|exact Le]. cbn. intros a Ha. lia.
-    + rewrite Nat2N.inj_succ. lia.
+      split; [exact Ci|]. cbn [fval]. rewrite P.
+      unfold max_u32, two32 in *. repeat split; try lia. f_equal. lia.
+    + others st i.
+  - (* FHasRead: truncates *)
+    destruct Ci as (Hl & Hv & H1 & Hlt). destruct (V _ Hv) as [V0 Vle].
+    constructor; cbn [f_file f_lock f_callers f_rets]; try assumption.
+    + intros v Hv'. discriminate Hv'.
+    + intro j. destruct (N.eq_dec j i) as [->|Hne].
+      * unfold fcaller_inv. cbn [f_callers f_lock f_rets]. rewrite fget_cons_same.
+        repeat split; [exact Hl|exact Hlt|lia|].
+        eapply Forall_impl; [|exact Vle]. cbn. intros a Ha. lia.
+      * others st i.
+  - (* FTrunc: writes the number and releases the mutex *)
+    destruct Ci as (Hl & Hlt & Hv0 & Hall).
+    assert (Hc : parse_u32 (fmt_u n) = Some n) by (apply parse_fmt; exact Hlt).
+    constructor; cbn [f_file f_lock f_callers f_rets map snd].
+    + intros v Hv. cbn [fval] in Hv. rewrite Hc in Hv. inversion Hv; subst.
+      split; [lia|]. constructor; [lia|]. eapply Forall_impl; [|exact Hall]. cbn. intros a Ha. lia.
+    + constructor; [exact Hv0|exact G0].
+    + constructor; [exact S|]. eapply Forall_impl; [|exact Hall]. cbn. intros a Ha. lia.
     + intro j. destruct (N.eq_dec j i) as [->|Hne].
       * unfold fcaller_inv. cbn [f_callers f_lock]. rewrite fget_cons_same. discriminate.
-      * apply (fcaller_other st _ i); auto.
-        intros k Hk. cbn [f_callers]. apply fget_cons_other. exact Hk.
+      * others st i.
 Qed.
 
-Lemma frun_inv v0 sched : forall st, finv v0 st -> finv v0 (frun st sched).
+Lemma fkill_outside c : match fkill c with FIdle => True | FDone _ => True | _ => False end.
+Proof. destruct c; exact I. Qed.
+
+Lemma fdo_inv v0 st e : finv v0 st -> fev_ok v0 st e -> finv v0 (fdo st e).
 Proof.
-  induction sched as [|i r IH]; intros st Hinv; cbn; [exact Hinv|].
-  apply IH. apply fstep_inv. exact Hinv.
+  intros Hinv Hok. destruct e as [i|c]; [apply fstep_inv; exact Hinv|].
+  destruct Hinv as [V G0 S C].
+  constructor; cbn [fdo f_file f_lock f_callers f_rets]; try assumption.
+  - intros v Hv. destruct c as [b|]; [|apply V; exact Hv].
+    cbn [fval] in Hv. cbn [fev_ok] in Hok. rewrite Hv in Hok. exact Hok.
+  - intro j. unfold fcaller_inv. cbn [f_callers f_lock]. rewrite fget_kill.
+    pose proof (fkill_outside (fget (f_callers st) j)) as K.
+    destruct (fkill (fget (f_callers st) j)); try contradiction; discriminate.
+Qed.
+
+Lemma frun_inv v0 sched : forall st, finv v0 st -> fenv_ok v0 st sched -> finv v0 (frun st sched).
+Proof.
+  induction sched as [|e r IH]; intros st Hinv Hok; [exact Hinv|].
+  change (frun st (e :: r)) with (frun (fdo st e) r). destruct Hok as [H1 H2].
+  apply IH; [apply fdo_inv; assumption|exact H2].
 Qed.
 
 Lemma finv_init f : finv (fcur f) (finit f).
 Proof.
-  constructor; cbn [finit f_file f_lock f_callers f_rets map length]; try constructor.
-  - lia.
-  - cbn. lia.
+  constructor; cbn [finit f_file f_lock f_callers f_rets map]; try constructor.
+  - destruct f as [b|]; cbn [fval fcur] in *.
+    + rewrite H. lia.
+    + inversion H. lia.
+  - constructor.
   - intro i. unfold fcaller_inv. cbn. discriminate.
 Qed.
 
-(* every interleaving of any number of calls: numbers strictly increasing from the stored one *)
+(* every interleaving of any number of calls, with the process dying and restarting at any
+   points: numbers strictly increasing from the stored one *)
 Lemma file_sorted f sched :
+  fenv_ok (fcur f) (finit f) sched ->
   StronglySorted N.lt (fcur f :: fhanded (frun (finit f) sched)).
 Proof.
-  pose proof (frun_inv (fcur f) sched _ (finv_init f)) as [_ _ G0 S _ _].
+  intro Hok. pose proof (frun_inv (fcur f) sched _ (finv_init f) Hok) as [_ G0 S _].
   unfold fhanded. rewrite map_rev. constructor.
   - apply ssorted_rev. exact S.
   - apply Forall_forall. intros y Hy. apply in_rev in Hy. rewrite Forall_forall in G0. auto.
 Qed.
 
-Lemma file_nodup f sched : NoDup (fhanded (frun (finit f) sched)).
+Lemma file_nodup f sched :
+  fenv_ok (fcur f) (finit f) sched -> NoDup (fhanded (frun (finit f) sched)).
 Proof.
-  pose proof (file_sorted f sched) as S. inversion S; subst. apply ssorted_nodup. assumption.
+  intro Hok. pose proof (file_sorted f sched Hok) as S. inversion S; subst.
+  apply ssorted_nodup. assumption.
 Qed.
 
-(* no number is skipped or lost: the file stands at the start value plus the calls that returned *)
-Lemma file_dense f sched :
-  fcur (f_file (frun (finit f) sched)) =
-  fcur f + N.of_nat (length (fhanded (frun (finit f) sched))).
+(* a schedule in which the file never gets a content from outside meets the hypothesis *)
+Lemma fenv_ok_plain v0 sched : forall st,
+  Forall (fun e => match e with FCrash (Some _) => False | _ => True end) sched ->
+  fenv_ok v0 st sched.
 Proof.
-  pose proof (frun_inv (fcur f) sched _ (finv_init f)) as [_ _ _ _ Cn _].
-  unfold fhanded. rewrite map_length, rev_length. exact Cn.
+  induction sched as [|e r IH]; intros st F; [exact I|]. inversion F; subst.
+  split; [|apply IH; assumption]. destruct e as [i|[b|]]; try exact I. contradiction.
 Qed.
 
 (* mutual exclusion: at most one call is between Lock and Unlock *)
 Definition fcritical (st : fstate) (i : N) : Prop :=
-  match fget (f_callers st) i with FChecked => True | FHasRead _ => True | _ => False end.
+  match fget (f_callers st) i with
+  | FCreating => True | FChecked => True | FHasRead _ => True | FTrunc _ => True | _ => False
+  end.
 
 Lemma file_mutex f sched i j :
+  fenv_ok (fcur f) (finit f) sched ->
   fcritical (frun (finit f) sched) i -> fcritical (frun (finit f) sched) j -> i = j.
 Proof.
-  pose proof (frun_inv (fcur f) sched _ (finv_init f)) as [_ _ _ _ _ C].
+  intro Hok. pose proof (frun_inv (fcur f) sched _ (finv_init f) Hok) as [_ _ _ C].
   intros Hi Hj. pose proof (C i) as Ci. pose proof (C j) as Cj.
   unfold fcritical, fcaller_inv in *.
   assert (Li : f_lock (frun (finit f) sched) = Some i).
-  { destruct (fget (f_callers (frun (finit f) sched)) i) as [| |n|r]; try contradiction;
-      [exact Ci|exact (proj1 Ci)]. }
+  { destruct (fget (f_callers (frun (finit f) sched)) i) as [| | |n|n|r]; try contradiction;
+      [exact (proj1 Ci)|exact Ci|exact (proj1 Ci)|exact (proj1 Ci)]. }
   assert (Lj : f_lock (frun (finit f) sched) = Some j).
-  { destruct (fget (f_callers (frun (finit f) sched)) j) as [| |m|r]; try contradiction;
-      [exact Cj|exact (proj1 Cj)]. }
+  { destruct (fget (f_callers (frun (finit f) sched)) j) as [| | |m|m|r]; try contradiction;
+      [exact (proj1 Cj)|exact Cj|exact (proj1 Cj)|exact (proj1 Cj)]. }
   congruence.
 Qed.
 
@@ -857,6 +913,152 @@ Lemma file_exhausted_fails st i b :
 Proof.
   intros G F P. unfold fstep. rewrite G, F, P, next32_max.
   cbn [f_file f_rets f_callers]. rewrite fget_cons_same. auto.
+Qed.
+
+(* ----- a file that does not read as a number: every start fails, for ever ----- *)
+Definition funreadable (st : fstate) : Prop :=
+  fval (f_file st) = None /\
+  forall i, match fget (f_callers st) i with
+            | FIdle => True | FChecked => True | FDone _ => True | _ => False end.
+
+Lemma funreadable_step st e :
+  funreadable st -> match e with FCrash (Some _) => False | _ => True end ->
+  funreadable (fdo st e) /\ f_rets (fdo st e) = f_rets st /\ f_file (fdo st e) = f_file st.
+Proof.
+  intros [Hv Hc] He. destruct e as [i|[b|]]; [|contradiction|].
+  - cbn [fdo]. unfold fstep. pose proof (Hc i) as Ci.
+    destruct (f_file st) as [b|] eqn:F; [|discriminate Hv]. cbn [fval] in Hv.
+    destruct (fget (f_callers st) i) as [| | |n|n|r] eqn:G; try contradiction.
+    + destruct (f_lock st); [repeat split; [rewrite F; exact Hv|exact Hc|congruence]|].
+      cbn [f_rets f_file]. repeat split; [exact Hv|].
+      intro j. cbn [f_callers]. destruct (N.eq_dec j i) as [->|Hne];
+        [rewrite fget_cons_same; exact I|rewrite fget_cons_other by assumption; apply Hc].
+    + rewrite Hv. cbn [f_rets f_file]. repeat split; [cbn [fval]; exact Hv|].
+      intro j. cbn [f_callers]. destruct (N.eq_dec j i) as [->|Hne];
+        [rewrite fget_cons_same; exact I|rewrite fget_cons_other by assumption; apply Hc].
+    + repeat split; [rewrite F; exact Hv|exact Hc|congruence].
+  - cbn [fdo f_rets f_file]. repeat split; [exact Hv|].
+    intro j. cbn [f_callers]. rewrite fget_kill. specialize (Hc j).
+    destruct (fget (f_callers st) j); try contradiction; exact I.
+Qed.
+
+Lemma funreadable_run sched : forall st,
+  funreadable st -> Forall (fun e => match e with FCrash (Some _) => False | _ => True end) sched ->
+  f_rets (frun st sched) = f_rets st /\ f_file (frun st sched) = f_file st.
+Proof.
+  induction sched as [|e r IH]; intros st U F; [auto|].
+  change (frun st (e :: r)) with (frun (fdo st e) r). inversion F; subst.
+  destruct (funreadable_step st e U H1) as (U' & R & Fi).
+  destruct (IH _ U' H2) as [R' Fi']. rewrite R', Fi'. auto.
+Qed.
+
+(* after the process died, whatever state the calls were in: if the file does not read as a
+   number (empty after a torn write-back, or any garbage) no number is ever handed out again *)
+Lemma file_torn_fails_forever st c sched :
+  fval (f_file (fdo st (FCrash c))) = None ->
+  Forall (fun e => match e with FCrash (Some _) => False | _ => True end) sched ->
+  f_rets (frun (fdo st (FCrash c)) sched) = f_rets st /\
+  f_file (frun (fdo st (FCrash c)) sched) = f_file (fdo st (FCrash c)).
+Proof.
+  intros Hv F.
+  assert (U : funreadable (fdo st (FCrash c))).
+  { split; [exact Hv|].
+    intro i. cbn [fdo f_callers]. rewrite fget_kill.
+    pose proof (fkill_outside (fget (f_callers st) i)) as K.
+    destruct (fkill (fget (f_callers st) i)); try contradiction; exact I. }
+  destruct (funreadable_run sched _ U F) as [R Fi]. split; [rewrite R; reflexivity|exact Fi].
+Qed.
+
+(* the process dies between the truncate and the write of a write-back: the file is empty *)
+Lemma file_torn_is_empty st i n :
+  fget (f_callers st) i = FHasRead n ->
+  f_file (fdo (fstep st i) (FCrash None)) = Some [] /\
+  fval (f_file (fdo (fstep st i) (FCrash None))) = None.
+Proof. intro G. unfold fstep. rewrite G. cbn. auto. Qed.
+
+(* failing on it is what makes the theorem true: a reader that takes an empty file for "0"
+   starts again at 1 after five numbers and a torn write *)
+Lemma file_lenient_witness :
+  fhanded (frun_lenient (finit None)
+     (fserial [0; 1] ++ [FS 2; FS 2; FS 2; FCrash None] ++ fserial [3])) = [1; 2; 1].
+Proof. reflexivity. Qed.
+
+Lemma file_lenient_refutes :
+  ~ (forall f sched, NoDup (fhanded (frun_lenient (finit f) sched))).
+Proof.
+  intro H. specialize (H None (fserial [0; 1] ++ [FS 2; FS 2; FS 2; FCrash None] ++ fserial [3])).
+  rewrite file_lenient_witness in H.
+  inversion H as [|? ? Hin _]; subst. apply Hin. right. left. reflexivity.
+Qed.
+
+(* ----- without a crash no update is lost ----- *)
+Definition fcount (v0 : N) (st : fstate) : Prop :=
+  let k := v0 + N.of_nat (length (f_rets st)) in
+  match f_lock st with
+  | None => fcur (f_file st) = k
+  | Some h => match fget (f_callers st) h with
+              | FTrunc n => n = k + 1
+              | FCreating => True
+              | _ => fcur (f_file st) = k
+              end
+  end.
+
+Lemma fstep_count v0 st i : finv v0 st -> fcount v0 st -> fcount v0 (fstep st i).
+Proof.
+  intros [V G0 S C] K. unfold fstep. pose proof (C i) as Ci. unfold fcaller_inv in Ci.
+  destruct (fget (f_callers st) i) as [| | |n|n|r] eqn:G; [| | | | |exact K].
+  - destruct (f_lock st) as [h|] eqn:L; [exact K|].
+    unfold fcount in *. rewrite L in K.
+    destruct (f_file st) as [b|] eqn:F; cbn [f_lock f_callers f_file f_rets];
+      rewrite fget_cons_same; [exact K|exact I].
+  - destruct Ci as (Hl & Hv0 & Hnil). unfold fcount. cbn [f_lock f_callers f_file f_rets].
+    rewrite Hl, fget_cons_same, Hnil, Hv0. reflexivity.
+  - assert (Hk : fcur (f_file st) = v0 + N.of_nat (length (f_rets st))).
+    { unfold fcount in K. rewrite Ci, G in K. exact K. }
+    destruct (f_file st) as [b|] eqn:F;
+      [|unfold fcount; cbn [f_lock f_callers f_file f_rets]; exact Hk].
+    destruct (parse_u32 b) as [v|] eqn:P;
+      [|unfold fcount; cbn [f_lock f_callers f_file f_rets]; exact Hk].
+    destruct (next32 v) as [n|] eqn:Nx;
+      [|unfold fcount; cbn [f_lock f_callers f_file f_rets]; exact Hk].
+    unfold fcount. cbn [f_lock f_callers f_file f_rets]. rewrite Ci, fget_cons_same. exact Hk.
+  - destruct Ci as (Hl & Hv & H1 & Hlt).
+    assert (Hk : fcur (f_file st) = v0 + N.of_nat (length (f_rets st))).
+    { unfold fcount in K. rewrite Hl, G in K. exact K. }
+    unfold fcount. cbn [f_lock f_callers f_file f_rets]. rewrite Hl, fget_cons_same.
+    assert (Hc : fcur (f_file st) = n - 1).
+    { destruct (f_file st) as [b|]; cbn [fval fcur] in *; [rewrite Hv; reflexivity|].
+      inversion Hv. reflexivity. }
+    lia.
+  - destruct Ci as (Hl & Hlt & _ & _).
+    assert (Hk : n = v0 + N.of_nat (length (f_rets st)) + 1).
+    { unfold fcount in K. rewrite Hl, G in K. exact K. }
+    unfold fcount. cbn [f_lock f_file f_rets length fcur].
+    rewrite (parse_fmt n Hlt). rewrite Nat2N.inj_succ. lia.
+Qed.
+
+Lemma frun_count v0 sched : forall st,
+  no_crash sched -> finv v0 st -> fcount v0 st ->
+  finv v0 (frun st sched) /\ fcount v0 (frun st sched).
+Proof.
+  induction sched as [|e r IH]; intros st N Hinv K; [auto|].
+  change (frun st (e :: r)) with (frun (fdo st e) r). inversion N as [|? ? He Hr]; subst.
+  destruct e as [i|c]; [|contradiction]. cbn [fdo].
+  apply IH; [exact Hr|apply fstep_inv; exact Hinv|apply fstep_count; assumption].
+Qed.
+
+(* no number is skipped or lost while the process lives: whenever the mutex is free the file
+   stands at the start value plus the number of calls that returned *)
+Lemma file_dense f sched :
+  no_crash sched -> f_lock (frun (finit f) sched) = None ->
+  fcur (f_file (frun (finit f) sched)) =
+  fcur f + N.of_nat (length (fhanded (frun (finit f) sched))).
+Proof.
+  intros N L.
+  assert (K0 : fcount (fcur f) (finit f)) by (unfold fcount; cbn; lia).
+  destruct (frun_count (fcur f) sched _ N (finv_init f) K0) as [_ K].
+  unfold fcount in K. rewrite L in K.
+  unfold fhanded. rewrite map_length, rev_length. exact K.
 Qed.
 
 (* ================= START_ACTIVITY ================= *)
@@ -1112,3 +1314,9 @@ Proof.
     + apply N.eqb_neq in R0. apply N.eqb_neq in R1.
       assert (H : (rest <=? 1) = false) by (apply N.leb_gt; lia). rewrite H. cbn. auto.
 Qed.
+
+(* with crashes at any points but no content from outside: no hypothesis at all *)
+Lemma file_sorted_plain f sched :
+  Forall (fun e => match e with FCrash (Some _) => False | _ => True end) sched ->
+  StronglySorted N.lt (fcur f :: fhanded (frun (finit f) sched)).
+Proof. intro F. apply file_sorted. apply fenv_ok_plain. exact F. Qed.
